@@ -1,2 +1,8 @@
 import SLModel.Core.Ffi
+import SLModel.Core.Fs
+import SLModel.Lemmas.Keyset
+import SLModel.Lemmas.TopK
+import SLModel.Lemmas.ISort
+import SLModel.Lemmas.Varint
+import SLModel.Lemmas.Locked
 import SLModel.Props.C26
